@@ -17,6 +17,8 @@
 package transport
 
 import (
+	"time"
+
 	"github.com/lni/dragonboat/v4/internal/vfs"
 	pb "github.com/lni/dragonboat/v4/raftpb"
 )
@@ -35,4 +37,14 @@ func VerifSplitSnapshotMessage(m pb.Message, fs vfs.IFS) ([]pb.Chunk, error) {
 // VerifLoadChunkData exposes loadChunkData.
 func VerifLoadChunkData(chunk pb.Chunk, data []byte, fs vfs.IFS) ([]byte, error) {
 	return loadChunkData(chunk, data, fs)
+}
+
+// VerifSetIdleTimeout overrides the idle timeout after which the worker of a
+// send queue gives up its connection (default one minute), so that external
+// runtime monitors can reach the idle path within a short run. It returns the
+// previous value.
+func VerifSetIdleTimeout(d time.Duration) time.Duration {
+	old := idleTimeout
+	idleTimeout = d
+	return old
 }
